@@ -52,6 +52,7 @@ def load_yaml(path):
 # GEN
 # ----------------------------------------------------------------------------------------------------------
 ROUTER_ACL = {
+    17: {"action": "PERMIT", "src_port": "SSH", "dst_port": "SSH"},  # remote sessions on the servers and on the gateway itself
     18: {"action": "PERMIT", "src_port": "POSTGRES_SERVER", "dst_port": "POSTGRES_SERVER"},
     19: {"action": "PERMIT", "src_port": "DNS", "dst_port": "DNS"},
     20: {"action": "PERMIT", "src_port": "FTP", "dst_port": "FTP"},
@@ -60,6 +61,7 @@ ROUTER_ACL = {
     23: {"action": "PERMIT", "protocol": "ICMP"},
 }
 FW_LIST = {
+    18: {"action": "PERMIT", "src_port": "SSH", "dst_port": "SSH"},
     19: {"action": "PERMIT", "src_port": "POSTGRES_SERVER", "dst_port": "POSTGRES_SERVER"},
     20: {"action": "PERMIT", "src_port": "DNS", "dst_port": "DNS"},
     21: {"action": "PERMIT", "src_port": "HTTP", "dst_port": "HTTP"},
